@@ -469,6 +469,40 @@ def run_verydeep(spec, acc, focus):
                 acc.violation(keyp + mech(b), b, dict(wit, step=step, n_leaves=len(leaves)))
             if bad:
                 break
+    if steps == depth and direction == 'time-to-0':
+        # a request whose closure has to walk the whole chain (each neighbour one time level coarser than the one before): deeper than
+        # the interpreter's recursion limit, so the call may fail - on the unchanged tree with RecursionError - and the mesh object
+        # it leaves behind is still a reachable state: tiling and bookkeeping must hold (a completed part of the closure is allowed)
+        raised = None
+        try:
+            mesh.refine_axis(e, ax)
+            mesh.refine_axis(e.children[1], ax)
+        except (Exception, RecursionError) as ex:
+            fr = repo_frame(ex)
+            if fr is None:
+                raise
+            raised = type(ex).__name__
+        acc.seen('deep:state-after-failed-operation', 1 if raised else 0)
+        acc.extra['cascade_request'] = raised or 'completed'
+        leaves = list(mesh.leaf_elements)
+        childless, stack = [], list(mesh.roots)
+        while stack:
+            q = stack.pop()
+            if q.children:
+                stack.extend(q.children)
+            else:
+                childless.append(q)
+        bad, n_edges = brute_check(leaves, ms['glued'], domain)
+        if focus == 'C02':
+            bad = [b for b in bad if 'edge with' in b or 'raised' in b]
+            tot = math.fsum(q.h_t * q.h_x for q in leaves)
+            if tot != area:
+                bad.append('leaf areas sum to %r, domain %r' % (tot, area))
+            if {id(q) for q in childless} != {id(q) for q in leaves} or len(leaves) != len(childless):
+                bad.append('leaf collection differs from the set of childless elements: %d leaves, %d childless' % (len(leaves), len(childless)))
+        for b in bad[:3]:
+            acc.violation(('mesh-invariant(after-failed-operation):' if focus == 'C02' else 'neighbours(after-failed-operation):') + mech(b),
+                          b + ' (after a cascade request that %s)' % ('raised ' + raised if raised else 'completed'), dict(wit, step='cascade', n_leaves=len(leaves)))
     acc.seen('deep:1000-ancestors:' + direction, 1 if steps >= 1040 else 0)
     acc.worst_of('max_level', max(max(q.levels) for q in mesh.leaf_elements))
     acc.sample({'mesh': ms, 'direction': direction, 'steps': steps, 'leaves': len(mesh.leaf_elements)}, 'verydeep%d' % spec['verydeep'])
